@@ -32,8 +32,17 @@ func runAuthz(c *h.Ctx, r *h.Report) {
 
 	for _, cookieName := range []string{"", "customCookie"} {
 		for _, anon := range []bool{false, true} {
-			for oi, origins := range [][]string{nil, {"https://allowed.example", "https://other.example"}, {"*"}} {
+			for oi, origins := range [][]string{nil, {"https://allowed.example", "https://other.example"}, {"*"}, nil, nil} {
 				cfg := hubCfg{PubAlg: "HS256", SubAlg: "HS256", Anonymous: anon, Origins: origins, CookieName: cookieName, Subscriptions: true}
+				// configurations 3 and 4: no publish origins but CORS origins (a list containing the request origins
+				// used below; '*'). CORS origins are not publish origins: the cookie rule must not see them. Only the
+				// requests whose sole credential is the cookie are sent there.
+				cookieOnly := oi >= 3
+				if oi == 3 {
+					cfg.Cors = []string{"https://allowed.example", "https://evil.example", "https://allowed.example:8443"}
+				} else if oi == 4 {
+					cfg.Cors = []string{"*"}
+				}
 				f := newFixture(cfg, nil)
 				pubA := mk(f.pubKey, `{"mercure":{"publish":["tA"],"payload":"A"}}`)
 				pubB := mk(f.pubKey, `{"mercure":{"publish":["tB"],"payload":"B"}}`)
@@ -63,6 +72,9 @@ func runAuthz(c *h.Ctx, r *h.Report) {
 				refererStates := []string{"", "https://allowed.example/page?x=1", "https://evil.example/", "https://%zz",
 					"https://allowed.example.evil.test/x", "https://allowed.example:8443/", "https://evil.example/https://allowed.example"}
 				hs, qs, cs := states(pubA, pubB, pubX)
+				if cookieOnly {
+					hs, qs = hs[:1], qs[:1]
+				}
 				for _, hd := range hs {
 					for _, q := range qs {
 						for _, ck := range cs {
